@@ -73,18 +73,33 @@ struct World {
         std::vector<double> data(total);
         std::iota(data.begin(), data.end(), 0.0);
         if (total > 0) da.setData(nix::DataType::Double, data.data(), shape, nix::NDSize(shape.size(), 0));
+        describe(da, dimsTok, false);
+        return da;
+    }
+    // A warm-up: the SAME array under OTHER descriptors (intervals doubled, offsets and ticks shifted — same kinds, same shape) is
+    // asked first and the answer (or refusal) thrown away; then it gets the descriptors of the request.  Whatever the library
+    // remembers about an array between two retrievals must not leak into the second one.
+    template<typename F> void warm(nix::DataArray &da, const std::string &dimsTok, F f) {
+        da.deleteDimensions();
+        describe(da, dimsTok, true);
+        try { f(); } catch (...) {}
+        da.deleteDimensions();
+        describe(da, dimsTok, false);
+    }
+    void describe(nix::DataArray &da, const std::string &dimsTok, bool perturbed) {
         for (auto &d : tokList(dimsTok)) {
             std::vector<std::string> f = splitOn(d, ':');
             if (f.empty()) throw ProtoError("empty dim");
             if (f[0] == "S") {
                 if (f.size() != 4) throw ProtoError("S dim");
-                nix::SampledDimension sd = da.appendSampledDimension(tokF64(f[1]));
-                if (f[2] != "~") sd.offset(tokF64(f[2]));
+                nix::SampledDimension sd = da.appendSampledDimension(perturbed ? tokF64(f[1]) * 2.0 : tokF64(f[1]));
+                if (f[2] != "~") sd.offset(perturbed ? tokF64(f[2]) + 1.0 : tokF64(f[2]));
+                else if (perturbed) sd.offset(0.5);
                 if (f[3] != "~") sd.unit(unhexStr(f[3]));
             } else if (f[0] == "R") {
                 if (f.size() != 3) throw ProtoError("R dim");
                 std::vector<double> t;
-                for (auto &x : splitOn(f[1], ';')) t.push_back(tokF64(x));
+                for (auto &x : splitOn(f[1], ';')) t.push_back(perturbed ? tokF64(x) + 100.0 : tokF64(x));
                 nix::RangeDimension rd = da.appendRangeDimension(t);
                 if (f[2] != "~") rd.unit(unhexStr(f[2]));
             } else if (f[0] == "T") {
@@ -100,7 +115,6 @@ struct World {
                 da.appendDataFrameDimension(df, 0);
             } else throw ProtoError("bad dim kind " + f[0]);
         }
-        return da;
     }
     nix::Tag tag(const std::string &posTok, const std::string &extTok, const std::string &unitsTok, const nix::DataArray &ref) {
         nix::Tag t = block.createTag("t" + std::to_string(n++), "t", dlist(posTok));
@@ -217,6 +231,7 @@ DRV_OP(tag_data) {
         nix::DataArray da = w.array(a[1], a[2]);
         nix::Tag t = w.tag(a[3], a[4], a[5], da);
         nix::RangeMatch m = rm(a[6]);
+        w.warm(da, a[2], [&]() { (void) nix::util::taggedData(t, (nix::ndsize_t) 0, m); });
         std::string prim = guarded([&]() { nix::DataView v = nix::util::taggedData(t, (nix::ndsize_t) 0, m); return viewTok(v); });
         std::vector<Door> doors = {
             {"util::taggedData(tag,array,match)", [&]() { nix::DataView v = nix::util::taggedData(t, da, m); return viewTok(v); }},
@@ -286,6 +301,7 @@ DRV_OP(mtag_data) {
         nix::MultiTag t = w.mtag(a[3], a[4] == "1", a[5], a[6], da);
         const std::vector<nix::ndsize_t> idx0 = idxList(a[7]);
         nix::RangeMatch m = rm(a[8]);
+        w.warm(da, a[2], [&]() { std::vector<nix::ndsize_t> idx = idx0; (void) nix::util::taggedData(t, idx, (nix::ndsize_t) 0, m); });
         std::string prim = guarded([&]() { std::vector<nix::ndsize_t> idx = idx0; std::vector<nix::DataView> vs = nix::util::taggedData(t, idx, (nix::ndsize_t) 0, m); return viewsTok(vs); });
         std::vector<Door> doors = {
             {"util::taggedData(mtag,list,array,match)", [&]() { std::vector<nix::ndsize_t> idx = idx0; std::vector<nix::DataView> vs = nix::util::taggedData(t, idx, da, m); return viewsTok(vs); }},
@@ -312,6 +328,7 @@ DRV_OP(mtag_data1) {
         nix::MultiTag t = w.mtag(a[3], a[4] == "1", a[5], a[6], da);
         nix::ndsize_t i = (nix::ndsize_t) tokNat(a[7]);
         nix::RangeMatch m = rm(a[8]);
+        w.warm(da, a[2], [&]() { (void) nix::util::taggedData(t, i, (nix::ndsize_t) 0, m); });
         std::string prim = guarded([&]() { nix::DataView v = nix::util::taggedData(t, i, (nix::ndsize_t) 0, m); return viewTok(v); });
         std::vector<Door> doors = {
             {"util::taggedData(mtag,i,array,match)", [&]() { nix::DataView v = nix::util::taggedData(t, i, da, m); return viewTok(v); }},
